@@ -1,13 +1,14 @@
 # Builds the Coq development (full .vo build) and the extracted model drivers.
 COQDIR := coq
 EXDIR  := coq/extract
-DRIVERS := sections smartlist wikiedit
+DRIVERS := sections smartlist wikiedit matches
 BINS := $(DRIVERS:%=$(EXDIR)/%_run)
 
 .PHONY: all coq drivers clean
 all: coq drivers
 
 coq:
+	/venv/bin/python tools/gen_tables.py
 	cd $(COQDIR) && coq_makefile -f _CoqProject -o Makefile.coq > /dev/null && timeout 3000 $(MAKE) -f Makefile.coq -j8
 
 drivers: $(BINS)
